@@ -256,3 +256,84 @@ func TestPool(t *testing.T) {
 		t.Error("duplicate not reported")
 	}
 }
+
+// Once: f runs exactly once in every schedule even when it gives up control inside, and nobody deadlocks;
+// callers that arrive meanwhile wait for it (they observe its effect)
+func TestOnceShim(t *testing.T) {
+	mk := func() ([]func(), func() string) {
+		var o Once
+		runs, seen := 0, ""
+		body := func() {
+			o.Do(func() { Yield(); runs++; Yield() })
+			seen += fmt.Sprint(runs)
+		}
+		return []func(){body, body, body}, func() string { return seen }
+	}
+	execs, o, dl := explore(2, mk)
+	if len(o) != 1 || o["111"] == 0 || dl != 0 {
+		t.Errorf("outcomes %v deadlocks %d in %d executions", o, dl, execs)
+	}
+}
+
+// W: unordered writes to one variable are reported whatever the schedule; writes to different variables never
+func TestWriteMonitor(t *testing.T) {
+	count := func(same bool) (races, execs int) {
+		var rec func(prefix []int)
+		rec = func(prefix []int) {
+			var a, b int
+			x := Run(prefix, 1000, []func(){
+				func() { Yield(); W(&a, "a"); a++ },
+				func() {
+					Yield()
+					if same {
+						W(&a, "a")
+					} else {
+						W(&b, "b")
+					}
+				},
+			})
+			execs++
+			if len(x.Races) > 0 {
+				races++
+			}
+			for i := len(prefix); i < len(x.Points); i++ {
+				for alt := 1; alt < x.Points[i].NEnabled; alt++ {
+					np := make([]int, i+1)
+					for k := 0; k < i; k++ {
+						np[k] = x.Points[k].Chosen
+					}
+					np[i] = alt
+					rec(np)
+				}
+			}
+		}
+		rec(nil)
+		return
+	}
+	if r, n := count(true); r != n || n < 2 {
+		t.Errorf("same variable: reported in %d of %d schedules", r, n)
+	}
+	if r, _ := count(false); r != 0 {
+		t.Errorf("different variables: %d reports", r)
+	}
+}
+
+// Map operations are scheduling points
+func TestMapShim(t *testing.T) {
+	mk := func() ([]func(), func() string) {
+		var m Map
+		order := ""
+		body := func(name string) func() {
+			return func() {
+				if _, loaded := m.LoadOrStore("k", name); !loaded {
+					order += name
+				}
+			}
+		}
+		return []func(){body("a"), body("b")}, func() string { return order }
+	}
+	_, o, _ := explore(1, mk)
+	if o["a"] == 0 || o["b"] == 0 {
+		t.Errorf("both threads must be able to win the LoadOrStore: %v", o)
+	}
+}
